@@ -21,6 +21,12 @@ def main():
         R.chains(chk, prog, ring, gl)
     if not only or 'extra' in only:
         R.field_extras(chk, prog, ring, gl)
+    if chk.thorough and not only:
+        from . import selftest
+        failures, counts, instrs = selftest.run(chk.seed or 1)
+        chk.add('translator-validation/executor-agrees-with-references-on-concrete-inputs', [], not failures,
+                meta={'comparisons': counts, 'ssa_instructions': instrs, 'mismatches': failures[:5]})
+        chk.notes.append('translator validation: %s comparisons, %d SSA instructions executed concretely' % (counts, instrs))
     chk.discharge()
     chk.finish()
 
